@@ -75,7 +75,7 @@ def run(ctx):
     scripts += splitfam.emit_scripts(ctx, ['parensemi'], 3, 'C05_emit_exh', exhaustive_len=5 if quick else 6, softlen=4 if quick else 5)
     cover = splitfam.cover_scripts(ctx, PLAIN, 5, 'C05_cover', transitions=True, memory=1)     # every pair of consecutive moves from every product state
     for i, c in enumerate(cover):
-        for j in (range(len(splitfam.PROBES)) if not quick else [i]):
+        for j in ([i, i + 1] if not quick else [i]):          # the pair cover is large: two of the four probes per script in the thorough tier
             scripts.append({'hist': splitfam.with_probe(c['hist'], j), 'cover': True})
     ctx.cov['cover_scripts'] = len(cover)
     for w in wit:
